@@ -186,6 +186,13 @@ fn scripts(prop: &str) -> Report {
     shards_fork.extend(fork_push_family(thorough));
     shards_fork.push(long_templates());
     shards_btc.push(long_templates());
+    shards_btc.push(multisig_by_key_count());
+    shards_fork.push(multisig_by_key_count());
+    if prop != "C14" {
+        let n = if thorough { 1_000_000 } else { 300_000 };
+        shards_btc.push(history_scripts(n));
+        shards_fork.push(history_scripts(n));
+    }
     shards_fork.extend(token_sequences(tok_len));
     if prop == "C14" {
         shards_btc.push(extremes());
@@ -238,8 +245,13 @@ fn scripts(prop: &str) -> Report {
 fn c16() -> Report {
     let mut rep = Report::new("C16", "e2");
     let coins: Vec<&'static Coin> = if is_thorough() { COINS.iter().collect() } else { vec![coin("bitcoin"), coin("testnet3"), coin("litecoin"), coin("dogecoin")] };
-    let scripts = opreturn_payload_scripts();
-    rep.rule = "full product payload length {0,1,2,19,75,76,80,255,256,520,65535,65536} x content class {ASCII, 2/3/4-byte UTF-8, 0xff, lone continuation, truncated multibyte} x every push form able to carry it (OP_0, direct, PUSHDATA1/2/4, minimal and not), evaluated in-process: the OpReturn payload string must be what the opreturn callback has to print; non-trivial = distinct (coin, script) whose reference is 'print this payload'".into();
+    let mut scripts = opreturn_payload_scripts();
+    // history dependence: what is printed for a script must not depend on the scripts evaluated before it on the same thread
+    let n_hist = if is_thorough() { 1_000_000 } else { 300_000 };
+    for s in history_scripts(n_hist).scripts {
+        scripts.push(("history:direct".to_string(), s));
+    }
+    rep.rule = "full product payload length {0,1,2,19,75,76,80,255,256,520,65535,65536} x content class {ASCII, 2/3/4-byte UTF-8, 0xff, lone continuation, truncated multibyte} x every push form able to carry it (OP_0, direct, PUSHDATA1/2/4, minimal and not), evaluated in-process: the OpReturn payload string must be what the opreturn callback has to print; plus 300 000 / 1 000 000 distinct standard scripts (every fifth an OP_RETURN with its own payload) evaluated in sequence on one thread with early ones repeated; non-trivial = distinct (coin, script) whose reference is 'print this payload'".into();
     rep.bound = json!({"scripts": scripts.len(), "coins": coins.iter().map(|c| c.name).collect::<Vec<_>>()});
     for c in coins {
         for (label, s) in &scripts {
@@ -258,7 +270,7 @@ fn c16() -> Report {
             let fam = if c.is_bitcoin_family() { "bitcoin-family" } else { "fork" };
             match exp {
                 rs::OpRet::Print(p) => {
-                    rep.nontrivial.insert(h8(format!("{}{}", c.name, label).as_bytes()));
+                    rep.nontrivial.insert(if label.starts_with("history") { h8(s) } else { h8(format!("{}{}", c.name, label).as_bytes()) });
                     rep.count(&format!("print:{}", form), 1);
                     if printed.as_deref() != Some(p.as_str()) {
                         let how = match &printed {
